@@ -17,7 +17,7 @@ import vlib
 from render_c10 import Renderer
 
 ANCHORS = ["decl.c", "expr.c", "stmt.c", "init.c", "pp.c", "scan.c", "attr.c", "qbe.c", "eval.c", "token.c", "main.c"]
-TIMEOUT = 4
+TIMEOUT = 3
 BASE_DEPENDENT = {"stmt", "redecl", "vaarg", "builtin", "none"}
 
 
@@ -231,8 +231,8 @@ def io_cases(ctx, objdir, sites, gcov):
 
 
 # --- the check ---------------------------------------------------------------------------------------
-def observe(objdir, src):
-    rc, out, err = vlib.cproc(objdir, src, timeout=TIMEOUT)
+def observe(objdir, src, target="x86_64-sysv"):
+    rc, out, err = vlib.cproc(objdir, src, target=target, timeout=TIMEOUT)
     return rc, out, err
 
 
@@ -256,16 +256,31 @@ def case_key(c, obs):
     return "valid:%s:%s:%s:%s" % (c["frag"]["form"], c["sub"], c["pos"], obs)
 
 
-def run_cases(ctx, cases, rend, objdir, sites, audit, do_audit=True, gcov=None):
+def run_cases(ctx, cases, rend, objdir, sites, audit, do_audit=True, gcov=None, target="x86_64-sysv"):
     def one(c):
         src = rend.program(c["base"], c["pos"], c["frag"])
-        rc, out, err = observe(objdir, src)
+        rc, out, err = observe(objdir, src, target)
         if gcov and rc == 1:
             if gcov.run(src) != rc:
                 gcov.mismatch += 1
         return c, src, rc, out, err
 
     results = vlib.pmap(one, cases, workers=16)
+
+    # process-level failures (hang, signal, no diagnostic): the box is shared and loaded, so such a case is run a second time with a
+    # longer limit and the second observation is kept (a genuine hang or crash repeats; a starved process does not)
+    def needs_retry(r):
+        c, src, rc, out, err = r
+        return rc == -999 or rc < 0 or (rc == 1 and not sites.classify(err)[0])
+
+    def again(r):
+        c, src, rc, out, err = r
+        rc, out, err = vlib.cproc(objdir, src, target=target, timeout=2 * TIMEOUT)
+        return c, src, rc, out, err
+
+    idx = [i for i, r in enumerate(results) if needs_retry(r)]
+    for i, r in zip(idx, vlib.pmap(again, [results[i] for i in idx], workers=8)):
+        results[i] = r
     reached_by_rule = collections.defaultdict(set)
     stats = collections.Counter()
     todo_audit = []
@@ -278,12 +293,6 @@ def run_cases(ctx, cases, rend, objdir, sites, audit, do_audit=True, gcov=None):
         ctx.count(src, nontrivial=(v != "valid" or c["pos"] != "none"))
         want = "accepted" if v == "valid" else "diagnosed"
         if obs != want:
-            if obs in ("timeout", "nodiag") or obs.startswith("signal"):
-                # process-level observation: report only if it repeats
-                rc2, _, err2 = observe(objdir, src)
-                f2, _ = sites.classify(err2) if err2 else (False, [])
-                if outcome(rc2, err2, f2) != obs:
-                    raise vlib.MachineryError("unstable observation for %s" % json.dumps(c))
             what = "%s program %s: required %s, observed %s (rc=%s, stderr=%r)" % (
                 v, "(rules %s)" % ",".join(c["viol"] or c["unsup"]) if v != "valid" else "", want, obs, rc, err[:160])
             ctx.violation(case_key(c, obs), what, {"case": c, "source": src, "rc": rc, "stderr": err[:400]})
@@ -355,6 +364,13 @@ def run(ctx):
             claims[c["claim"]] += 1
         stats, rb, bad = run_cases(ctx, cases, rend, objdir, sites, audit, gcov=gcov)
         total.update(stats)
+        if cfg == "MC_CStatic_thorough.cfg":
+            # the same witnesses and valid twins on the other two targets (the classification of MiniC does not depend on the target,
+            # except for wide string initializers of int arrays: wchar_t is unsigned there)
+            other = [c for c in cases if c["frag"]["form"] != "strinit"]
+            for t in ("aarch64", "riscv64"):
+                st, _, _ = run_cases(ctx, other, rend, objdir, sites, audit, do_audit=False, target=t)
+                total["cases_" + t] += len(other)
         for k, s in rb.items():
             by_rule[k] |= s
         allbad += bad
